@@ -122,6 +122,8 @@ func distinctChars(s string) bool {
 	return true
 }
 
+var c07TablesRule = "C07.tables"
+
 func c07tables(p *Program, r *Report, fns map[string]*ssa.Function) {
 	enc, dec := fns["base58.Encode"], fns["base58.Decode"]
 	if enc != nil && dec != nil {
@@ -133,9 +135,9 @@ func c07tables(p *Program, r *Report, fns map[string]*ssa.Function) {
 			}
 		}
 		if alpha == "" {
-			r.Unresolved("C07.tables", "constant alphabet indexed by base58.Encode")
+			r.Unresolved(c07TablesRule, "constant alphabet indexed by base58.Encode")
 		} else {
-			r.Add("C07.tables", FnName(enc), "encode alphabet equals Bitcoin's base58 alphabet", enc.Pos(), alpha == bitcoinAlphabet, fmt.Sprintf("%d symbols, distinct=%v", len(alpha), distinctChars(alpha)))
+			r.Add(c07TablesRule, FnName(enc), "encode alphabet equals Bitcoin's base58 alphabet", enc.Pos(), alpha == bitcoinAlphabet, fmt.Sprintf("%d symbols, distinct=%v", len(alpha), distinctChars(alpha)))
 		}
 		// decode table: global array indexed by a byte of the input string
 		var table *ssa.Global
@@ -173,12 +175,12 @@ func c07tables(p *Program, r *Report, fns map[string]*ssa.Function) {
 			}
 		}
 		if table == nil {
-			r.Unresolved("C07.tables", "decode table indexed by the input bytes in base58.Decode")
+			r.Unresolved(c07TablesRule, "decode table indexed by the input bytes in base58.Decode")
 		} else if vals, ok := p.constIntTable(table); !ok {
-			r.Undecided("C07.tables", FnName(dec), "decode table "+table.Name()+" is a constant table", tablePos, "initialiser is not a constant composite literal")
+			r.Undecided(c07TablesRule, FnName(dec), "decode table "+table.Name()+" is a constant table", tablePos, "initialiser is not a constant composite literal")
 		} else {
 			okInit := p.assignedOnlyByInit(table)
-			r.Add("C07.tables", FnName(dec), "decode table "+table.Name()+" is never reassigned", tablePos, okInit, "no store outside the package initialiser")
+			r.Add(c07TablesRule, FnName(dec), "decode table "+table.Name()+" is never reassigned", tablePos, okInit, "no store outside the package initialiser")
 			bad := ""
 			n := 0
 			if alpha != "" {
@@ -197,7 +199,7 @@ func c07tables(p *Program, r *Report, fns map[string]*ssa.Function) {
 					}
 				}
 			}
-			r.Add("C07.tables", FnName(dec), "decode table inverts the encode alphabet symbol by symbol; every other entry rejects", tablePos, bad == "" && alpha != "",
+			r.Add(c07TablesRule, FnName(dec), "decode table inverts the encode alphabet symbol by symbol; every other entry rejects", tablePos, bad == "" && alpha != "",
 				fmt.Sprintf("%d symbols agree, %d other entries hold the sentinel %d; %s", n, len(vals)-n, sentinel, bad))
 		}
 		// leading-zero character: the constant compared against input characters in Decode and appended in Encode equals alphabet[0]
@@ -210,7 +212,7 @@ func c07tables(p *Program, r *Report, fns map[string]*ssa.Function) {
 						if lx, _, ok := elemRead(bo.X); ok && lx == ssa.Value(dec.Params[0]) {
 							if k, ok := constInt(bo.Y); ok {
 								foundDec = true
-								r.Add("C07.tables", FnName(dec), "leading-zero character equals alphabet[0]", bo.Pos(), k == zc, fmt.Sprintf("compares with %q", rune(k)))
+								r.Add(c07TablesRule, FnName(dec), "leading-zero character equals alphabet[0]", bo.Pos(), k == zc, fmt.Sprintf("compares with %q", rune(k)))
 							}
 						}
 					}
@@ -224,7 +226,7 @@ func c07tables(p *Program, r *Report, fns map[string]*ssa.Function) {
 								if _, isAlloc := ia.X.(*ssa.Alloc); isAlloc {
 									// varargs array of append(answer, <const>)
 									foundEnc = true
-									r.Add("C07.tables", FnName(enc), "character emitted for a leading zero byte equals alphabet[0]", st.Pos(), k == zc, fmt.Sprintf("appends %q", rune(k)))
+									r.Add(c07TablesRule, FnName(enc), "character emitted for a leading zero byte equals alphabet[0]", st.Pos(), k == zc, fmt.Sprintf("appends %q", rune(k)))
 								}
 							}
 						}
@@ -232,10 +234,10 @@ func c07tables(p *Program, r *Report, fns map[string]*ssa.Function) {
 				}
 			}
 			if !foundDec {
-				r.Unresolved("C07.tables", "leading-zero comparison in base58.Decode")
+				r.Unresolved(c07TablesRule, "leading-zero comparison in base58.Decode")
 			}
 			if !foundEnc {
-				r.Unresolved("C07.tables", "leading-zero character appended in base58.Encode")
+				r.Unresolved(c07TablesRule, "leading-zero character appended in base58.Encode")
 			}
 		}
 	}
@@ -254,17 +256,17 @@ func c07tables(p *Program, r *Report, fns map[string]*ssa.Function) {
 		}
 		e, d := pick(idx), pick(srch)
 		if e == "" {
-			r.Unresolved("C07.tables", "32-symbol constant indexed on the bech32 encode path")
+			r.Unresolved(c07TablesRule, "32-symbol constant indexed on the bech32 encode path")
 		} else {
-			r.Add("C07.tables", FnName(benc), "bech32 encode charset equals BIP173's", benc.Pos(), e == bip173Charset && distinctChars(e), "32 distinct symbols")
+			r.Add(c07TablesRule, FnName(benc), "bech32 encode charset equals BIP173's", benc.Pos(), e == bip173Charset && distinctChars(e), "32 distinct symbols")
 		}
 		if d == "" {
-			r.Unresolved("C07.tables", "32-symbol constant searched on the bech32 decode path")
+			r.Unresolved(c07TablesRule, "32-symbol constant searched on the bech32 decode path")
 		} else {
-			r.Add("C07.tables", FnName(bdec), "bech32 decode charset equals BIP173's and the encoder's", bdec.Pos(), d == bip173Charset && d == e, "searched with strings.IndexByte: position = value")
+			r.Add(c07TablesRule, FnName(bdec), "bech32 decode charset equals BIP173's and the encoder's", bdec.Pos(), d == bip173Charset && d == e, "searched with strings.IndexByte: position = value")
 		}
 	}
-	r.Floor("C07.tables", 7)
+	r.Floor(c07TablesRule, 7)
 }
 
 func stripIntConv(v ssa.Value) ssa.Value {
